@@ -60,12 +60,12 @@ class _Base(object):
 
 
 class PermutedSubmitExecutor(_Base):
-    def submit(self, fn, *args, **kwargs):
+    def submit(self, fn, /, *args, **kwargs):
         self.tasks.append((fn, args, kwargs))
         return _Future(self, len(self.tasks) - 1)
 
 
 class PermutedApplyAsyncView(_Base):
-    def apply_async(self, fn, *args, **kwargs):
+    def apply_async(self, fn, /, *args, **kwargs):
         self.tasks.append((fn, args, kwargs))
         return _AsyncResult(self, len(self.tasks) - 1)
